@@ -67,6 +67,9 @@ type Entry struct {
 
 var registry = map[string]*Entry{}
 
+// Pat parses an operand pattern (exported for deviation models).
+func Pat(s string) []Role { return pat(s) }
+
 func pat(s string) []Role {
 	var out []Role
 	if s == "" {
